@@ -29,6 +29,13 @@ def classify(r):
     return mismatch_key(r)
 
 
+def classify_trace(rec):
+    """Known-finding recogniser for rejected trace lines (the deviation is decided by TLC, see ParseTrace.tla)."""
+    if "deviation TermAttrFromPlIndex" in rec["reason"] and rec["line"]["calls"]:
+        return "F09-term-attr-from-pl-index"
+    return None
+
+
 def only(prop):
     def f(r):
         if owner(r["what"], r["cfg"]) == prop:
@@ -181,3 +188,49 @@ def check_C08(res, scratch, tier, seed):
     check_recov(res, scratch, tier, seed, "C08",
                 "same families: TLC computes Repair!MinSimpleRecoveryCost (back to p<=k with error expected, shift error, skip to q>=k, next recovery_match "
                 "tokens incl. end of input shiftable) from Viable/IsSentence only; the first callback must not report more ignored tokens")
+
+
+# ------------------------------------------------------------------ C07 (trace validation with Member/Repair)
+def check_C07(res, scratch, tier, seed):
+    builds = std_builds(scratch, tier)
+    res.cov["trusted_base"] = TB + ["Member.tla membership fixed point evaluated by TLC on recorded trees"]
+    res.cov["rule"] = ("grammars with `error' in rules x translation variants x every input up to the bound; every parse with recovery on is recorded "
+                       "(callbacks + denoted trees) and TLC validates the line against ParseTrace.tla: rc 0, root non-NULL, calls >= 1 iff non-sentence, "
+                       "every denoted tree is the translation of a derivation of SOME repair (error absorbs disjoint, possibly empty segments) that ignores "
+                       "exactly the reported number of tokens (Member!IsRepairTranslation), and the single-segment range clause; "
+                       "distinct_nontrivial counts non-sentence parses with recovery on")
+    matrix = [(la, one, 0, 1, m, 0) for la in (0, 1, 2) for one in (1, 0) for m in (1, 2, 3)]
+    few = [(1, 1, 0, 1, 3, 0), (0, 0, 0, 1, 1, 0), (2, 1, 0, 1, 2, 0)]
+    fams = [("R2", mcgram_cfg([1, 2], [11], 2, 2, 3, True, [4], False), matrix),
+            ("R2b", mcgram_cfg([1, 2], [11, 12], 2, 2, 3, True, [0], False), few),
+            ("R2r3", mcgram_cfg([1], [11], 2, 3, 4, True, [4], False), few)]
+    if tier == "thorough":
+        fams += [("R2l4", mcgram_cfg([1, 2], [11, 12], 2, 2, 4, True, [0, 4, 7], False), few),
+                 ("R2r3b", mcgram_cfg([1, 2], [11], 2, 3, 4, True, [4], False), matrix),
+                 ("R3", mcgram_cfg([1], [11, 12], 3, 2, 4, True, [1, 4], False), few)]
+    for tag, cfg, mx in fams:
+        lines = run_trace_family(res, scratch, tag, cfg, mx, builds, props=("C07",), timeout=3000, classify=classify_trace)
+        res.cov["distinct_nontrivial"] += sum(1 for ln in lines if ln["calls"])
+    res.cov["exhaustive"] = True
+
+
+# ------------------------------------------------------------------ C13 (ledger machine of the caller's allocator)
+def check_C13(res, scratch, tier, seed):
+    builds = std_builds(scratch, tier) + [build(scratch, "asan", ("yv_replay",))]
+    res.cov["trusted_base"] = TB
+    res.cov["rule"] = ("every parse of the translation and recovery families runs with logging parse_alloc/parse_free (mem=0), alloc-only (mem=2) or "
+                       "NULL/NULL (mem=1): a free must name a live block of this parse, at most once, never NULL; every node, node name and child array "
+                       "reachable from the root lies in a live block at return; yaep_free_tree leaves no live block and calls the terminal callback once per "
+                       "TERM node; definition buffers are scribbled and freed right after the defining call; the library's own heap is unchanged after parse+free_tree")
+    matrix = [(1, 1, 0, 1, 3, 0), (0, 0, 0, 0, 3, 0), (2, 0, 1, 1, 2, 0), (1, 1, 1, 0, 3, 0), (0, 0, 1, 1, 1, 0)]
+    mk = lambda vec: blocks_from_vector(vec, matrix, codemap="ascii", mems=(0, 0, 1, 0, 2))
+    mine = only("C13")
+    fams = [("T2a", mcgram_cfg([1], [11, 12], 2, 2, 4, False, [0, 1, 3, 4, 5, 7, 8], True)),
+            ("T3amb", mcgram_cfg([1], [11], 3, 2, 5, False, [1, 4, 9], True)),
+            ("E2t", mcgram_cfg([1, 2], [11], 2, 2, 3, True, [1, 4], False))]
+    if tier == "thorough":
+        fams += [("T3c", mcgram_cfg([1], [11, 12], 3, 2, 4, False, [1, 4, 5], True)),
+                 ("E2u", mcgram_cfg([1, 2], [11, 12], 2, 2, 4, True, [0, 4], False))]
+    for tag, cfg in fams:
+        run_family(res, scratch, tag, cfg, mk, builds=builds, mine=mine, timeout=3000)
+    res.cov["exhaustive"] = True
